@@ -398,25 +398,19 @@ where
 
         while let Some(node) = ordering.pop() {
             if !invariant.contains(node.key()) {
-                let cycle = node
-                    .dfs()
+                // `ordering` is a depth-first finishing order, so the last
+                // unassigned node is the root of a component, and the
+                // component is everything that reaches it without passing
+                // through an already assigned node.
+                let component = node
+                    .preorder()
                     .transpose()
                     .filter(&mut |Edge(_, v, _)| !invariant.contains(v.key()))
-                    .search_cycle();
-                match cycle {
-                    Some(cycle) => {
-                        let mut cycle = cycle.to_vec_nodes();
-                        cycle.pop();
-                        for node in &cycle {
-                            invariant.insert(node.key().clone());
-                        }
-                        components.push(cycle);
-                    }
-                    None => {
-                        invariant.insert(node.key().clone());
-                        components.push(vec![node.clone()]);
-                    }
+                    .search_nodes();
+                for member in &component {
+                    invariant.insert(member.key().clone());
                 }
+                components.push(component);
             }
         }
         components
